@@ -135,3 +135,17 @@ pub assume_specification<T>[ Option::<T>::or ](a: Option<T>, b: Option<T>) -> (r
         r == (if a.is_some() { a } else { b }),
 ;
 
+
+// Iterator::size_hint: for an iterator that obeys the iterator laws, the two bounds bracket the number of items left
+// (the documented meaning of a correct implementation; nothing is said about an iterator that breaks the laws).
+// An absent upper bound says nothing: code that reads `None` as "no more than the lower bound" does not verify.
+/// T18 stand-in for `it.size_hint()` (vstd's external specification of Iterator cannot be extended).
+#[verifier::external_body]
+pub fn kv_size_hint<I: core::iter::Iterator>(it: &I) -> (r: (usize, Option<usize>))
+    ensures
+        vstd::std_specs::iter::IteratorSpec::obeys_prophetic_iter_laws(it) ==>
+            r.0 <= vstd::std_specs::iter::IteratorSpec::remaining(it).len()
+            && (r.1 matches Some(u) ==> vstd::std_specs::iter::IteratorSpec::remaining(it).len() <= u),
+{
+    it.size_hint()
+}
